@@ -103,9 +103,11 @@ Lemma skel_gta_Reset_ok : skel_gta_Reset =
   [Call "ResetTimestamp"].
 Proof. reflexivity. Qed.
 
-(* campaignLeader (E3): campaign; keep-alive; Initialize; memory reset deferred to the end of the term; EnableLeader; leader loop *)
+(* campaignLeader (E3): campaign; keep-alive; the dc-locations are read from etcd BEFORE the Global allocator is initialised,
+   i.e. before it serves (C05's JLeaderMove: the new leader's check precedes its first Global answer); Initialize; memory
+   reset deferred to the end of the term; EnableLeader; periodic checker; leader loop *)
 Lemma skel_campaignLeader_ok : skel_campaignLeader =
-  [Call "CampaignLeader"; IfE "" [Ret] []; DeferE [DeferE [Call "ResetLeader"]]; GoE [Call "KeepLeader"]; IfE "" [Ret] []; Call "Initialize"; IfE "" [Ret] []; DeferE [Call "ResetAllocatorGroup"]; IfE "" [Ret] []; IfE "" [Ret] []; IfE "" [Ret] []; IfE "" [Ret] []; Call "Rebase"; IfE "" [Ret] []; Call "EnableLeader"; DeferE [DeferE [Call "ResetLeader"]]; ForE [SwitchE [[Call "IsLeader"; IfE "" [Ret] []; IfE "" [Ret] []]; [Ret]]]].
+  [Call "CampaignLeader"; IfE "" [Ret] []; DeferE [DeferE [Call "ResetLeader"]]; GoE [Call "KeepLeader"]; IfE "" [Ret] []; Call "RefreshClusterDCLocations"; IfE "" [Ret] []; Call "Initialize"; IfE "" [Ret] []; DeferE [Call "ResetAllocatorGroup"]; IfE "" [Ret] []; IfE "" [Ret] []; IfE "" [Ret] []; IfE "" [Ret] []; Call "Rebase"; IfE "" [Ret] []; Call "EnableLeader"; GoE [Call "ClusterDCLocationChecker"]; DeferE [DeferE [Call "ResetLeader"]]; ForE [SwitchE [[Call "IsLeader"; IfE "" [Ret] []; IfE "" [Ret] []]; [Ret]]]].
 Proof. reflexivity. Qed.
 
 (* constants: the guard is exactly one millisecond (the proofs need guard >= 1 ms), the default save
